@@ -790,4 +790,82 @@ theorem allocBytes_refines (c : Cfg) (s : St) (free : List Seg) (lives : List Ex
         exact slowEntry_refines h (by simpa using hro) n fuel h0 hfuel pure id
           (fun m _ _ => ⟨rfl, rfl, rfl, Nat.le_refl _, Nat.le_refl _⟩) true
 
+theorem allocT_refines (c : Cfg) (s : St) (free : List Seg) (lives : List Ext) (tsize talign fuel : Nat)
+    (h : CInv c s free lives) (ht : TyOK tsize talign) (hfuel : free.length + 2 ≤ fuel) :
+    AllocRefines c s free lives ((s.abs free).allocT c tsize talign) (allocT c s tsize talign fuel) true := by
+  have hcap := h.cap_le
+  have hal := h.alloc_le
+  obtain ⟨hta, _, hts⟩ := ht
+  have hab := okAlignment_bounds hta
+  have hge := alignUp_ge talign
+  have hlt := alignUp_lt talign
+  by_cases hro : c.ro = true
+  · have hr : (s.abs free).allocT c tsize talign = (.error .readOnly, s.abs free) := by
+      unfold A.allocT; rw [if_pos hro]
+    have hc : allocT c s tsize talign fuel = .ok (.error .readOnly, s) := by
+      unfold allocT; rw [if_pos hro]; rfl
+    rw [hr, hc]; exact AllocRefines.err ..
+  · by_cases h0 : tsize = 0
+    · have hr : (s.abs free).allocT c tsize talign = (.ok none, s.abs free) := by
+        unfold A.allocT; rw [if_neg hro, if_pos h0]
+      have hc : allocT c s tsize talign fuel = .ok (.ok none, s) := by
+        unfold allocT; rw [if_neg hro, if_pos h0]; rfl
+      rw [hr, hc]; exact AllocRefines.none ..
+    · have h1 := hge s.allocated hta
+      have h2 := hlt s.allocated hta
+      have hao : alignOffset talign s.allocated = .ok (alignUp talign s.allocated) :=
+        alignOffset_ok _ _ (by unfold TWO32 at *; omega)
+      have hadd : addU32 "aligned+size" (alignUp talign s.allocated) tsize = .ok (alignUp talign s.allocated + tsize) :=
+        addU32_ok _ _ _ (by unfold TWO32 at *; omega)
+      by_cases hfit : alignUp talign s.allocated + tsize ≤ s.mem.size
+      · have hr : (s.abs free).allocT c tsize talign =
+            (.ok (some ((Meta.new s.allocated (alignUp talign s.allocated + tsize - s.allocated)).alignToS talign tsize)),
+              { s.abs free with allocated := alignUp talign s.allocated + tsize }) := by
+          unfold A.allocT
+          rw [if_neg hro, if_neg h0]
+          simp only []
+          rw [if_pos (show alignUp talign (s.abs free).allocated + tsize ≤ (s.abs free).cap from hfit)]
+          rfl
+        have hc : allocT c s tsize talign fuel =
+            .ok (.ok (some ((Meta.new s.allocated (alignUp talign s.allocated + tsize - s.allocated)).alignToS talign tsize)),
+              { s with allocated := alignUp talign s.allocated + tsize,
+                       mem := s.mem.zero (alignUp talign s.allocated) tsize }) := by
+          unfold allocT
+          rw [if_neg hro, if_neg h0, hao]
+          simp only [bind, Except.bind, hadd]
+          rw [if_pos (show alignUp talign s.allocated + tsize ≤ s.cap from hfit),
+            alignTo_ok _ _ _ (by simp only [Meta.new]; unfold TWO32 at *; omega)]
+          simp only []
+          rw [clearMeta_ok _ _ (by simpa [Meta.new, Meta.alignToS] using hfit)]
+          rfl
+        have hwf := (allocT_ok c _ _ lives tsize talign _ h.wf ⟨hta, by assumption⟩ hr).1.wf
+        rw [hr, hc]
+        obtain ⟨b1, b2⟩ := bump_refines h _ (alignUp talign s.allocated + tsize)
+          (s.mem.zero (alignUp talign s.allocated) tsize) hwf
+          (by simp) (fun i hi => Mem.rd_zero_out _ _ _ _ (Or.inl (by omega)))
+        refine ⟨_, rfl, b1, b2, fun _ => ?_⟩
+        intro i hi1 hi2
+        exact Mem.rd_zero_in _ _ _ _ hi1 hi2
+      · have hr : (s.abs free).allocT c tsize talign =
+            (s.abs free).slowEntry c (pad tsize talign) (fun m => m.alignToS talign tsize) := by
+          unfold A.allocT
+          rw [if_neg hro, if_neg h0]
+          simp only []
+          rw [if_neg (show ¬ alignUp talign (s.abs free).allocated + tsize ≤ (s.abs free).cap from hfit)]
+        have hc : allocT c s tsize talign fuel =
+            (do let r ← slowEntry c s (pad tsize talign) fuel (fun m => m.alignTo talign tsize); pure (liftRes r)) := by
+          unfold allocT
+          rw [if_neg hro, if_neg h0, hao]
+          simp only [bind, Except.bind, hadd]
+          rw [if_neg (show ¬ alignUp talign s.allocated + tsize ≤ s.cap from hfit)]
+        rw [hr, hc]
+        refine slowEntry_refines h (by simpa using hro) _ fuel (by unfold pad; omega) hfuel _ _ ?_ true
+        intro m hm1 hm2
+        have g1 := hge m.ptrOff hta
+        have g2 := hlt m.ptrOff hta
+        unfold pad at hm1
+        refine ⟨alignTo_ok _ _ _ (by unfold TWO32 at *; omega), rfl, rfl, ?_, ?_⟩
+        · simp only [Meta.alignToS]; exact g1
+        · simp only [Meta.alignToS]; omega
+
 end Rarena
